@@ -9,7 +9,7 @@ def mc_cfg(name, devs):
 
 
 def transition_check(sc, tier, seed, prop, models, quick_n, rule, thorough_n=None, level='model_checking',
-                     assumptions=(), port=21000, walks=(), walk_n=(300, 3000), walk_depth=8):
+                     assumptions=(), port=21000, walks=(), walk_n=(300, 3000), walk_depth=8, steer=()):
     """TLC enumerates every (state x command) transition of the bounded family models, checks the
     property invariants on the ideal reading, and every transition (a seeded, shape-stratified sample
     in the quick tier) is replayed on the real server over TCP with a full-state comparison."""
@@ -65,6 +65,11 @@ def transition_check(sc, tier, seed, prop, models, quick_n, rule, thorough_n=Non
         v.add_samples(wcs[:1], 1)
         v.cov['tlc_runs'].append({'model': wmod + ' (simulation)', 'walks': len(wcs), 'depth': walk_depth, 'wall_s': st['wall_s']})
         nwalk += len(wcs)
+    if steer:
+        scs, sinfo = dict_steer_cases(sc, tier, seed, steer, v)
+        sres, sdt = run_replay(exe, sc, scs, port=port, tag='steer')
+        v.absorb_replay(scs, sres, engine='dict_steering')
+        v.cov['engines']['dict_steering'].update(sinfo)
     v.assumptions = list(assumptions) + [
         'trusted observers/constructors: SET RPUSH HSET SADD PEXPIREAT SELECT FLUSHALL / KEYS TYPE GET LRANGE LLEN LINDEX HGETALL SMEMBERS PEXPIRETIME (each is itself a target of transition cases; a loader whose result does not project to the pre-state is reported, not skipped)',
         'error replies compared by error code only; unordered collections as multisets; random replies by membership/size/distinctness',
@@ -75,18 +80,83 @@ def transition_check(sc, tier, seed, prop, models, quick_n, rule, thorough_n=Non
                            'walks_replayed': nwalk, 'replay_wall_s': round(dt, 1)})
 
 
+def dict_steer_cases(sc, tier, seed, kinds, v):
+    """Programs that drive the emulator's hash table (hashes, sets, the keyspace) through every branch of
+    store / remove, planned on the state graph of Dict.tla and given their expectations by MCProg."""
+    import random as _r, shutil as _sh
+    import dictsteer as ds
+    from concurrent.futures import ThreadPoolExecutor
+    rnd = _r.Random(seed)
+    pools = ds.make_pools('f', seed)
+    pairs = [p for p in pools if p['kind'].startswith('pair')]
+    deeps = [p for p in pools if p['kind'].startswith('deep')]
+    if tier == 'quick':
+        deeps = deeps[:1]
+    maxlen = 130 if tier == 'quick' else 420
+    per_label = 1 if tier == 'quick' else 3
+
+    def explore(pool):
+        mod, cfg = ds.dict_module(pool, 64 if tier == 'quick' else 256, reset_when_empty=('keys' not in kinds))
+        tag = 'dict-' + pool['kind']
+        d = sc.path('tlc-' + tag)
+        if not os.path.isdir(d):
+            _sh.copytree(SPEC, d)
+        open(os.path.join(d, 'MC_dict.tla'), 'w').write(mod)
+        return run_tlc(sc, 'MC_dict', cfg, tag=tag, workers=2, timeout=1200)
+
+    use = pairs + deeps
+    with ThreadPoolExecutor(max_workers=NCPU // 2) as ex:
+        runs = list(ex.map(explore, use))
+    progs, labels, nstates, ngen = [], {}, 0, 0
+    for pool, (out, st) in zip(use, runs):
+        require_tlc_clean(st, 'MC_dict ' + pool['kind'])
+        edges = list(tlc_json_lines(out))
+        targets, ns, lab = ds.plan(edges, rnd, per_label)
+        nstates += ns
+        ngen += st.get('generated', 0)
+        for t in targets:
+            if len(t['ops']) > maxlen:
+                continue
+            labels[t['label']] = labels.get(t['label'], 0) + 1
+            kind = kinds[len(progs) % len(kinds)] if tier == 'quick' else None
+            for k in ([kind] if kind else kinds):
+                progs.append({'steps': ds.program(k, pool['names'], t['ops'], rnd), 'label': t['label'], 'pool': pool['kind'], 'kind': k})
+    tag = 'prog-steer'
+    d = sc.path('tlc-' + tag)
+    if not os.path.isdir(d):
+        _sh.copytree(SPEC, d)
+    with open(os.path.join(d, 'progs.ndjson'), 'w') as f:
+        for pr in progs:
+            f.write(json.dumps({'steps': pr['steps']}, separators=(',', ':')) + '\n')
+    out, st = run_tlc(sc, 'MC_prog', mc_cfg('MC_prog', open_devs()), tag=tag, timeout=1500)
+    require_tlc_clean(st, 'MC_prog (dict steering)')
+    ops = list(tlc_json_lines(out))
+    cases = walk_cases(ops)
+    for c, o in zip(cases, ops):
+        pr = progs[o['prog'] - 1]
+        c['steer'] = {'label': pr['label'], 'pool': pr['pool'], 'kind': pr['kind']}
+    if len(cases) != len(progs):
+        raise Inconclusive('MC_prog returned %d cases for %d programs' % (len(cases), len(progs)))
+    for i, c in enumerate(cases):
+        c['id'] = i
+    v.cov['tlc_runs'].append({'model': 'Dict.tla over %d name pools (Refines, OnePlace, Findable, SizeOk hold)' % len(use),
+                              'states': nstates, 'transitions': ngen})
+    v.cov['tlc_runs'].append({'model': 'MC_prog (expectations for %d steering programs)' % len(progs), 'wall_s': st['wall_s']})
+    return cases, {'branches_of_store_remove_covered': labels, 'pools': len(use), 'dict_states': nstates, 'programs': len(progs)}
+
+
 def c03(sc, tier, seed):
     return transition_check(sc, tier, seed, 'C03', ['MC_lists'], walks=['MC_lists_walk'], quick_n=15000,
                             rule='TLC enumerates every state of MC_lists (2 keys; lists up to 3 over 2 elements, a string, a set) x every list command instance (indexes -5..5 and 32/64-bit extremes, counts, ranks, option orders, keyword case, bad arity); each transition is one case: load pre-state, send command, compare reply and full projected state. Non-trivial = the command changed the state or failed; distinct = distinct (pre-state, command).')
 
 
 def c05(sc, tier, seed):
-    return transition_check(sc, tier, seed, 'C05', ['MC_sets', 'MC_sets2'], walks=['MC_sets_walk'], quick_n=60000,
+    return transition_check(sc, tier, seed, 'C05', ['MC_sets', 'MC_sets2'], walks=['MC_sets_walk'], quick_n=60000, steer=('set',),
                             rule='TLC enumerates every state of MC_sets (3 keys; each missing, one of the 3 non-empty sets over {x,y}, a string or a list) x every set command instance (all operand tuples up to length 3 incl. repeated/missing/wrong-typed operands and destination among the operands, SRANDMEMBER counts -3..3, SINTERCARD numkeys/LIMIT variants, bad arity); one replay case per transition with full-state comparison. Non-trivial = state changed or command failed; distinct = distinct (pre-state, command).')
 
 
 def c04(sc, tier, seed):
-    return transition_check(sc, tier, seed, 'C04', ['MC_hashes'], walks=['MC_hashes_walk'], quick_n=15000,
+    return transition_check(sc, tier, seed, 'C04', ['MC_hashes'], walks=['MC_hashes_walk'], quick_n=15000, steer=('hash',),
                             rule='TLC enumerates every state of MC_hashes (2 keys; hashes over fields {f,g} with values {x,7}, boundary integers +-2^63, mixed signs, dyadic floats, empty value; wrong-typed keys) x every hash command instance (HSET/HMSET/HSETNX incl. repeated fields and odd arity, HINCRBY over a sign/overflow table, HINCRBYFLOAT on dyadic values, HRANDFIELD counts -3..3 with/without WITHVALUES, bad arity); one replay case per transition with full-state comparison.')
 
 
@@ -97,7 +167,7 @@ def c02(sc, tier, seed):
 
 
 def c06(sc, tier, seed):
-    return transition_check(sc, tier, seed, 'C06', ['MC_keyspace'], walks=['MC_keyspace_walk'], quick_n=26000,
+    return transition_check(sc, tier, seed, 'C06', ['MC_keyspace'], walks=['MC_keyspace_walk'], quick_n=26000, steer=('keys',),
                             rule='TLC enumerates MC_keyspace: 2 keys, each missing or one of 9 values (2 strings, 3 lists, 2 hashes, 2 sets; one- and two-element aggregates so that removing the last element is reached) x one well-formed instance of every data command per key (the WRONGTYPE cross product) + generic key commands (DEL UNLINK EXISTS TYPE TOUCH RENAME RENAMENX COPY KEYS with 16 glob patterns, RANDOMKEY, DBSIZE, SORT variants) + arity/unknown-command failures; FailedInert and WellFormed (no empty aggregate, one type per key) are checked by TLC on the ideal reading; every transition is replayed with full-state comparison before/after (that comparison is the inertness check on the real server).')
 
 
